@@ -235,6 +235,13 @@ def contained(fn):
   return val if kind == 'ok' else 'raise:' + val
 
 
+def skip_checks_in_recipe(q):
+  try:
+    return any(bool((r.get('op_config') or {}).get('skip_checks')) for r in q.get_quantization_recipe())
+  except Exception:  # pylint: disable=broad-except
+    return False
+
+
 def valid_execution_order(model_bytes):
   """Every operand is a graph input, a constant/variable, or produced by an earlier operator."""
   from tensorflow.lite.tools import flatbuffer_utils
@@ -373,6 +380,14 @@ def execute(doc):
       b2 = contained(lambda: run_interpreter(large, spec, sample))
       if a3 != a:
         rec.probe('runtime_nondeterministic_skipped')
+        rec.event(step, 'quantize', 'large-ok', core.sha(small), len(large) - len(small))
+        continue
+      if b2 != a and skip_checks_in_recipe(q):
+        # skip_checks forces configs the runtime does not support (e.g. 16-bit weights on a hybrid
+        # CONV_2D: the kernel reads past the 2-byte weights as if they were wider). What the
+        # runtime then reads depends on what happens to lie behind the buffer, i.e. on the layout,
+        # which legitimately differs between the two forms. (a), (b), (d) still hold for these.
+        rec.probe('runtime_differs_under_skip_checks')
         rec.event(step, 'quantize', 'large-ok', core.sha(small), len(large) - len(small))
         continue
       if b2 != a:
